@@ -97,3 +97,33 @@ V("c12-readout-tag", "break", ["C12"], (MD, "        weight_mup_type: MupType = 
 V("c12-conv-tag", "break", ["C12"], (MD, "        constraint: Optional[str] = \"to_output_scale\",\n        weight_mup_type: MupType = \"weight\",\n    ) -> None:\n        super().__init__(\n            in_channels,", "        constraint: Optional[str] = \"to_output_scale\",\n        weight_mup_type: MupType = \"output\",\n    ) -> None:\n        super().__init__(\n            in_channels,"))
 V("c12-depth", "break", ["C12"], (OP, "    return param.mup_scaling_depth**-0.5", "    return param.mup_scaling_depth**-0.25"))
 V("c12-readout-default-constraint", "break", ["C12"], (MD, "        constraint: Optional[str] = None,\n        weight_mup_type: MupType = \"output\",", "        constraint: Optional[str] = \"gmean\",\n        weight_mup_type: MupType = \"output\","))
+
+# ---------------------------------------------------------------- C01
+DOCS = "unit_scaling/docs.py"
+V("c01-data-scale-std", "break", ["C01", "C02"], (FN, "    output_scale = inner_size**-0.5\n", "    output_scale = 1 / float(left.std())\n"), expect="R1-taint")
+V("c01-data-batch", "break", ["C01", "C02"], (FN, "    if len(input.shape) == 2:\n        batch_size, vocab_size = input.shape\n", "    if len(input.shape) == 2:\n        batch_size, vocab_size = input.shape\n        vocab_size = int(target.max()) + 1\n"))
+V("c01-keep-inplace-on-fresh", "keep", ["C01", "C02"], (FN, "    return F.gelu(x * mult, approximate=approximate) / mult", "    x *= mult\n    return F.gelu(x, approximate=approximate) / mult"))
+V("c01-inplace-input", "break", ["C01"], (FN, "    output = input / rms(input, dims=dims, keepdim=True, eps=eps)", "    input /= rms(input, dims=dims, keepdim=True, eps=eps)\n    output = input"))
+V("c01-drop-alpha-unsupported", "break", ["C01"], (FN, "    unsupported_args=[\"alpha\"],", "    unsupported_args=[],"), expect="add")
+V("c01-conv-stride-as-padding", "break", ["C01"], (FN, "    output = F.conv1d(input, weight, bias, stride, padding, dilation, groups)", "    output = F.conv1d(input, weight, bias, stride, stride, dilation, groups)"), expect="conv1d::result")
+V("c01-cast", "break", ["C01"], (FN, "    output = F.linear(input, weight, bias)\n    return scale_fwd(output, output_scale)", "    output = F.linear(input, weight, bias)\n    return scale_fwd(output, output_scale).float()"), expect="linear::result")
+V("c01-layernorm-eps", "break", ["C01"], (FN, "    return F.layer_norm(input, normalized_shape, weight, bias, eps)", "    return F.layer_norm(input, normalized_shape, weight, bias)"), expect="layer_norm::result")
+V("c01-layernorm-scaled", "break", ["C01"], (FN, "    return F.layer_norm(input, normalized_shape, weight, bias, eps)", "    return scale_fwd(F.layer_norm(input, normalized_shape, weight, bias, eps), 1.01)"), expect="R3-exact-one")
+V("c01-mse-mean", "break", ["C01"], (FN, "        return scale_fwd(loss, 1 / input.nelement())", "        return scale_fwd(loss, 1 / input.shape[0])"), expect="mse_loss")
+V("c01-softmax-dtype-dropped", "break", ["C01"], (FN, "    return F.softmax(x * mult, dim=dim, dtype=dtype)", "    return F.softmax(x * mult, dim=dim)"))
+V("c01-softmax-dim", "break", ["C01"], (FN, "    return F.softmax(x * mult, dim=dim, dtype=dtype)", "    return F.softmax(x * mult, dim=-1, dtype=dtype)"))
+V("c01-sdpa-mask-dropped", "break", ["C01"], (FN, "        attn_mask=attn_mask,\n", ""))
+V("c01-sdpa-scale", "break", ["C01"], (FN, "        scale=mult / d_head,", "        scale=mult / d_head**0.5,"))
+V("c01-embedding-padding", "break", ["C01"], (FN, "        input, weight, padding_idx, max_norm, norm_type, scale_grad_by_freq, sparse\n    )", "        input, weight, None, max_norm, norm_type, scale_grad_by_freq, sparse\n    )"))
+V("c01-ce-clamp", "break", ["C01"], (FN, "    input = scale_fwd(input, mult)\n    loss = F.cross_entropy(", "    input = scale_fwd(input, mult).clamp(-30, 30)\n    loss = F.cross_entropy("))
+V("c01-guard-positional", "break", ["C01"], (DOCS, "        arg_values = dict(zip(argspec.args, args))\n", "        arg_values = dict()\n"), expect="_validate")
+V("c01-guard-noraise", "break", ["C01"], (DOCS, "                if arg_value != arg_default_value:\n                    raise ValueError(", "                if arg_value != arg_default_value and False:\n                    raise ValueError("))
+V("c01-decorator-drops-guard", "break", ["C01"], (DOCS, "        return _validate(source, unsupported_args)\n", "        return source\n"))
+V("c01-negative-scale", "break", ["C01"], (FN, "    return scale_fwd(output, output_scale)\n\n\n@docstring_from(\n    F.linear,\n    short_description=\"Applies a **unit-scaled** linear transformation,\"", "    return scale_fwd(output, -output_scale)\n\n\n@docstring_from(\n    F.linear,\n    short_description=\"Applies a **unit-scaled** linear transformation,\""), expect="R7-positive")
+V("c01-dropout-training", "break", ["C01"], (FN, "    return scaled_dropout(input, p, training, inplace)", "    return scaled_dropout(input, p, True, inplace)"))
+V("c01-add-out", "break", ["C01"], (FN, "    out = torch.add(input, other, out=out)\n", "    out = torch.add(input, other)\n"))
+V("c01-keep-kwargs", "keep", ["C01", "C02", "C03"], (FN, "    output = F.conv1d(input, weight, bias, stride, padding, dilation, groups)", "    output = F.conv1d(input, weight, bias=bias, stride=stride, padding=padding, dilation=dilation, groups=groups)"))
+V("c01-keep-gelu-nospecial", "keep", ["C01", "C02", "C05"], (FN, "    if mult == 1:\n        return F.gelu(x, approximate=approximate)\n    return F.gelu(x * mult, approximate=approximate) / mult", "    return F.gelu(mult * x, approximate=approximate) / mult"))
+V("c01-keep-silu-form", "keep", ["C01", "C02"], (FN, "    return x * F.sigmoid(x * mult)", "    return F.silu(x * mult) / mult"))
+V("c01-keep-helper", "keep", ["C01", "C02", "C03", "C05", "C12"], (FN, "    output_scale = 1 / fan_in ** scale_power[0]\n    grad_input_scale = 1 / fan_out ** scale_power[1]", "    def _inv_pow(n, e):\n        return 1 / n**e\n\n    output_scale = _inv_pow(fan_in, scale_power[0])\n    grad_input_scale = _inv_pow(fan_out, scale_power[1])"))
+V("c01-keep-mse-numel", "keep", ["C01", "C02", "C03"], (FN, "        return scale_fwd(loss, 1 / input.nelement())", "        return scale_fwd(loss, 1 / input.numel())"))
